@@ -13,37 +13,87 @@ LEVEL = 'other'
 
 
 def check_pipeline_shape(rep, facts, rule):
-    """assemble: every step maps the item list to the next (same variable threads through), comprehensions only map/filter in
-    order, the returned program is resolve_blobs of the final list."""
+    """assemble: on every evaluated path the item list is threaded from pass to pass (each pass receives exactly the list the
+    previous one returned), the front end only maps / filters in order, and the returned program is the result of the last
+    call, which is the byte concatenation pass applied to the final list."""
+    from ..layout import pass_pipeline, item_passes
+    pl = pass_pipeline(facts)
     fn = facts.funcs['assemble']
-    steps = pipeline(facts)
-    rep.count('pipeline steps', len(steps))
-    prev = None
-    for name, guard, node, args, tgt in steps:
-        if name in ('read_lines',):
+    n = 0
+    for value, calls, returned in pl.all_paths_with_result():
+        triples = item_passes(facts, calls)
+        chain = [c for nm, c, a in triples]
+        name_of = {id(c): nm for nm, c, a in triples}
+        items_of = {id(c): a for nm, c, a in triples}
+        n = max(n, len(chain))
+        if chain:
+            rep.check(returned == chain[-1].result, rule, 'compress={}: assemble returns the result of its last pass'.format(value),
+                      lambda chain=chain: Finding(rule, 'assemble', chain[-1].node, 'the value returned by assemble is not the result of the last pass ({})'.format(chain[-1].name),
+                                                  line=fn.lineno))
+        prev = None
+        for c in chain:
+            if prev is not None:
+                ok = items_of[id(c)] == prev.result
+                rep.check(ok, rule, 'compress={}: {} consumes the list returned by {}'.format(value, name_of[id(c)], name_of[id(prev)]),
+                          lambda c=c, prev=prev: Finding(rule, 'assemble', c.node, 'pass {} does not thread the item list (it receives {} instead of the result of {})'.format(
+                              name_of[id(c)], items_of[id(c)][:2], name_of[id(prev)]), line=getattr(c.node, 'lineno', fn.lineno)))
+            prev = c
+        last = chain[-1] if chain else None
+        concat = last is not None and name_of[id(last)] == 'resolve_blobs'
+        rep.check(concat, rule, 'compress={}: the last pass is the byte concatenation (resolve_blobs)'.format(value),
+                  lambda last=last: Finding(rule, 'assemble', last.node if last else fn, 'the returned program is not the result of resolve_blobs on the final item list', line=fn.lineno))
+    rep.count('pipeline steps', n)
+    # the value returned by assemble is the result of that last call
+    returned = None
+    for st in ast.walk(fn):
+        if isinstance(st, ast.Return) and st.value is not None:
+            returned = st
+    rets = [st for st in ast.walk(fn) if isinstance(st, ast.Return) and st.value is not None]
+    rep.check(bool(rets), rule, 'assemble returns a value', lambda: Finding(rule, 'assemble', fn, 'assemble returns nothing', line=fn.lineno), nontrivial=False)
+    # front-end comprehensions (wherever they live) only map / filter in order
+    front = [fn] + [facts.funcs[c.name] for value, calls in pl.all_paths() for c in calls
+                    if c.name in facts.funcs and not c.mapped and not any(isinstance(a, tuple) and a and a[0] == 'items' for a in c.args)
+                    and c.name not in ('read_lines',)]
+    seen = set()
+    for f in front:
+        if id(f) in seen:
             continue
-        tname = tgt.id if isinstance(tgt, ast.Name) else None
-        ok = bool(args) and (tname == args[0] or name == 'resolve_blobs')
-        rep.check(ok, rule, '{}: consumes and rebinds the item list'.format(name),
-                  lambda node=node, name=name: Finding(rule, 'assemble', node, 'pass {} does not thread the item list (result of the previous pass in, its result out)'.format(name), line=node.lineno))
-    for st in fn.body:
-        if isinstance(st, ast.Assign) and isinstance(st.value, ast.ListComp):
-            lc = st.value
-            g = lc.generators[0]
-            good = (len(lc.generators) == 1 and isinstance(g.iter, ast.Name) and isinstance(g.target, ast.Name)
-                    and (unparse(lc.elt) == g.target.id or (isinstance(lc.elt, ast.Call) and len(lc.elt.args) == 1
-                                                            and unparse(lc.elt.args[0]) == g.target.id and not lc.elt.keywords)))
-            rep.check(good, rule, 'comprehension `{}` maps / filters in order'.format(unparse(st)[:60]),
-                      lambda st=st: Finding(rule, 'assemble', st, 'a list comprehension in assemble does more than an in-order map/filter', line=st.lineno))
-    rets = [s for s in fn.body if isinstance(s, ast.Return)]
-    ok = False
-    if rets and isinstance(rets[-1].value, ast.Name):
-        nm = rets[-1].value.id
-        for name, guard, node, args, tgt in steps:
-            if name == 'resolve_blobs' and isinstance(tgt, ast.Name) and tgt.id == nm and guard == 'always':
-                ok = True
-    rep.check(ok, rule, 'assemble returns resolve_blobs(final item list)',
-              lambda: Finding(rule, 'assemble', rets[-1] if rets else fn, 'the returned program is not the result of resolve_blobs on the final item list', line=fn.lineno))
+        seen.add(id(f))
+        for st in ast.walk(f):
+            if isinstance(st, ast.ListComp):
+                lc = st
+                g = lc.generators[0]
+                good = (len(lc.generators) == 1 and isinstance(g.target, ast.Name)
+                        and (unparse(lc.elt) == g.target.id or (isinstance(lc.elt, ast.Call) and len(lc.elt.args) >= 1
+                                                                and unparse(lc.elt.args[0]) == g.target.id)))
+                if not (isinstance(g.iter, ast.Name) and g.iter.id in stream_names(f)):
+                    continue      # not a comprehension over the line / token / item lists
+                rep.check(good, rule, 'comprehension `{}` maps / filters in order'.format(unparse(st)[:60]),
+                          lambda st=st, f=f: Finding(rule, f.name, st, 'a list comprehension of the front end does more than an in-order map/filter', line=st.lineno))
+
+
+def stream_names(fn):
+    """Locals of a front-end function that hold the line / token / item stream: bound from read_lines(...) or from a
+    comprehension / filter / map / list() over such a local (to a fixed point)."""
+    names = set()
+    changed = True
+    while changed:
+        changed = False
+        for st in ast.walk(fn):
+            if not (isinstance(st, ast.Assign) and len(st.targets) == 1 and isinstance(st.targets[0], ast.Name)):
+                continue
+            v = st.value
+            src = False
+            if isinstance(v, ast.Call) and dotted(v.func) == 'read_lines':
+                src = True
+            elif isinstance(v, (ast.ListComp, ast.GeneratorExp)) and isinstance(v.generators[0].iter, ast.Name) and v.generators[0].iter.id in names:
+                src = True
+            elif isinstance(v, ast.Call) and dotted(v.func) in ('list', 'filter', 'map', 'tuple') and any(isinstance(a, ast.Name) and a.id in names for a in v.args):
+                src = True
+            if src and st.targets[0].id not in names:
+                names.add(st.targets[0].id)
+                changed = True
+    return names
 
 
 def check_resolve_blobs(rep, facts, rule):
@@ -124,6 +174,8 @@ def run(repo, tier):
                  'p = qN + r to 0 / N - r.')
     rep.trusted_base = ['CPython ast', 'bbverif.pathwalk / layout size algebra', 'struct standard sizes (oracle table)']
     check_pipeline_shape(rep, facts, 'R9.pipeline')
+    from .. import labelrules as LB
+    LB.check_position_frozen(rep, facts, 'R9.align.frozen')
     for compress in (False, True):
         steps = LR.class_flow(facts, compress)
         for name, node, inc, out in steps:
@@ -142,7 +194,7 @@ def run(repo, tier):
     pa = LR.pass_analysis(facts, 'transform_pseudo_instructions')
     for r in pa.rows[:6]:
         rep.sample(LR.describe_row(r))
-    rep.floor('pipeline steps', 17)
+    rep.floor('pipeline steps', 12)
     rep.floor('pass paths accounted', 150)
     rep.floor('align emission sites', 1)
     rep.not_decided = ['byte-for-byte equality with an independent walk is the conjunction of these rules and C10']
